@@ -283,6 +283,25 @@ def store_level(ctx, R):
         merges = h.find_calls('track::Track::merge')
         ctx.check(len(merges) >= 1, R, h, 'worker:merge-calls', '%d Track::merge call(s) in the worker' % len(merges),
                   'the store worker does not call Track::merge any more')
+        # ... with the caller's class list and history flag as they were sent: a store-level merge must behave like
+        # Track::merge on the same arguments (a class list filtered / rebuilt in the worker changes which classes count
+        # as merged - and with it whether the history is extended)
+        ebh = ExprBuilder(h)
+        for c in merges:
+            if len(c.args) < 4:
+                continue
+            cl = ebh.arg(c, 2)
+            calls = [y.name.rsplit('::', 1)[-1] for y in cl.walk() if y.kind == 'call' and y.name.rsplit('::', 1)[-1] not in (
+                'deref', 'recv', 'as_ref', 'as_slice', 'clone', 'borrow', 'get_feature_classes', 'unwrap', 'to_vec', 'as_deref')]
+            from_cmd = any(y.kind == 'call' and y.name.rsplit('::', 1)[-1] == 'recv' for y in cl.walk())
+            ctx.check(from_cmd and not calls and cl.kind != 'phi', R, h, 'worker:merge-classes-as-sent', repr(cl)[:100],
+                      'the worker hands Track::merge the class list %r: not the list the caller sent (or the classes of the '
+                      'source when that list is empty) - a merge through the store no longer equals Track::merge on the '
+                      'same arguments (merge history / merged classes differ)' % cl, c.ln)
+            hf = ebh.arg(c, 3).strip()
+            ctx.check(hf.kind == 'place' or (hf.kind == 'call' and hf.name.endswith('recv')), R, h,
+                      'worker:merge-history-flag-as-sent', repr(hf)[:80],
+                      'the merge-history flag handed to Track::merge is %r, not the flag the caller sent' % hf, c.ln)
     # TrackBuilder::build: add_observation result propagated
     bld = ctx.anchor(R, 'track::builder::TrackBuilder::build')
     if bld is not None:
